@@ -950,6 +950,17 @@ def generic_case(case, r: R):
     vendor(b'', '/empty')
     for c in sorted(reg['vendor_codes']):
         vendor(bytes([c]), '/code-octet-only')
+    # a claimed sub-event code whose second octet selects a layout the factory does not have: Android's
+    # Bluetooth Quality Report (0x58) defines the link-quality layout for report ids 1-4 and 7-9 only (5 is
+    # Root Inflammation, 6 Energy Monitoring, with layouts of their own; everything else is unassigned), so
+    # all other report ids are events Bumble does not know, of any length
+    if 0x58 in reg['vendor_codes']:
+        for rid in range(256):
+            if rid in (1, 2, 3, 4, 7, 8, 9):
+                continue
+            for n in (2, 4, 6, rng.randint(7, 83), 84, 85, rng.randint(86, 255)):
+                vendor(bytes([0x58, rid]) + ref.gen_bytes(rng, n - 2), '/bqr-report-id-without-layout')
+                r.ev('vendor_bqr_unknown_report_ids')
     # a factory that declines everything must not change the outcome
     declined = []
 
